@@ -26,7 +26,7 @@ func genC11Hammer(seed uint64, r *rng) *Scenario {
 	sc.Res = []ReSpec{s}
 	kinds := [][]int{{OpReplace}, {OpReplace, OpReplaceAt}, {OpMatchString, OpMatchRunes}, {OpFindString, OpFindRunes, OpWalk2}, {OpFindAllString, OpFindAllRunes},
 		{OpSplit, OpReplaceFunc}, {OpReplace, OpMatchString, OpFindAllString}, {OpCompatAllSubmatch, OpCompatAllIndex, OpCompatSubmatchIndex},
-		{OpEngine}, {OpMarshalRoundTrip, OpEngine}, {OpMarshalRoundTrip, OpMatchString}}[r.n(11)]
+		{OpEngine}, {OpMarshalRoundTrip, OpEngine}, {OpMarshalRoundTrip, OpMatchString}, {OpCompatReader}, {OpCompatReader, OpCompatMatch, OpCompatAllIndex}}[r.n(13)]
 	nin := 1 + r.n(3)
 	ins := make([]InputSpec, nin)
 	for i := range ins {
@@ -39,10 +39,31 @@ func genC11Hammer(seed uint64, r *rng) *Scenario {
 	}
 	ncl := 3 + r.n(2)
 	est := int64(0)
+	// long-vs-many: one client is inside a single long call (a long, mostly multi-byte input with many matches)
+	// while the others complete a dozen short ASCII calls each on the same Regexp: whatever a Regexp "learns"
+	// from recent calls changes under the long call's feet
+	longVsMany := r.chance(1, 5)
 	for c := 0; c < ncl; c++ {
 		cl := Client{Cost: int64(100 + r.n(400))}
-		for i := 1 + r.n(4); i > 0; i-- {
+		nops := 1 + r.n(4)
+		if longVsMany && c > 0 {
+			nops = 8 + r.n(7)
+		} else if longVsMany {
+			nops = 1
+		}
+		for i := nops; i > 0; i-- {
 			op := Op{Kind: kinds[r.n(len(kinds))], Re: 0, In: ins[r.n(nin)], In2: ins[r.n(nin)], N: []int{-1, -1, 1, 2}[r.n(4)], Repl: repls[(off+r.n(nrep))%len(repls)]}
+			if longVsMany && c == 0 {
+				u := []string{"héllo wörld 12 ", "日本 ab ", "é1 "}[r.n(3)]
+				if f := pp.Frags[r.n(len(pp.Frags))]; f != "" && r.chance(1, 2) {
+					u = f + " é"
+				}
+				op.In = InputSpec{Unit: u, Rep: 40 + r.n(400)}
+				op.Kind = []int{OpReplace, OpReplace, OpReplaceFunc, OpFindAllString, OpSplit, OpFindString}[r.n(6)]
+				op.N = -1
+			} else if longVsMany {
+				op.In = lit([]string{"ab 12", "x", "hello world", "a-1 b-2", pp.Frags[r.n(len(pp.Frags))]}[r.n(5)])
+			}
 			if op.Kind == OpReplaceAt {
 				op.StartAt = -1
 			}
